@@ -288,23 +288,19 @@ def extractTagAndAandB(a, delimiter = "="):
     B = None if len(r) < 3 else r[2]
     return [tag, A, B]
 
-def replaceUserTags(line, dict_key_vals):
-    is_defined = [key for key in dict_key_vals if key in line]
-    if not is_defined and not hasDefault(line): # if its not defined (even None or '') then leave it.
-        return line
-
-    taganddefault    = extractDefaultAndTag(line)
-    line             = removeDefault(line)#removeDefault2(line, taganddefault[1])
-    taganddefault[0] = removeDefault(taganddefault[0])
-
-    for tag, value in dict_key_vals.items():
-        if value == None: # None is allowed ... it should be '' and not 'None'.
-            value = ""
-        line = line.replace(f'<<<{tag}>>>', str(value))
-    if taganddefault[1].strip():
-        line = line.replace(taganddefault[0], taganddefault[1])
-    line = line.replace('<<<','').replace('>>>','')
-    return line
+def replaceUserTags(line, dict_key_vals, delimiter = "="):
+    # Each tag <<<name>>> / <<<name=default>>> of the line is treated on its own : it becomes the value of 'name' if
+    # that is defined (None is allowed ... it should be '' and not 'None'), else its default if it has one, else it
+    # is left as it is. Other tags and the text around them are never touched.
+    def replace_one(match):
+        parts = match.group(1).split(delimiter, 1)
+        if parts[0] in dict_key_vals:
+            value = dict_key_vals[parts[0]]
+            return "" if value is None else str(value)
+        if len(parts) > 1:
+            return parts[1]
+        return match.group(0)
+    return tag_pattern.sub(replace_one, line)
 
 def removeDefault2(a, default, delimiter = "="):
     return a.replace(default,"").replace(delimiter, "")
